@@ -17,6 +17,26 @@ ENTRY_ROOTS = [
     "interpreter::interpret",
 ]
 
+DESERIALIZER_SIDE = {"serde::Deserializer", "serde::de::SeqAccess", "serde::de::MapAccess", "serde::de::EnumAccess",
+                     "serde::de::VariantAccess"}
+
+
+def reachable_bodies(lib, cg=None):
+    """Bodies reachable from compile / search / clone / conversion.  External generic
+    code (serde_json, T::serialize, derived visitors) may call any method of the
+    crate's Serializer / Serialize* / Visitor / Serialize / Deserialize impls, so those
+    are roots as well; every registered Function::evaluate is reachable via the registry."""
+    cg = cg or CallGraph(lib)
+    roots = list(ENTRY_ROOTS)
+    for b in cg.nodes.values():
+        tr = b.impl_trait or ""
+        if tr.startswith("serde::") and tr not in DESERIALIZER_SIDE:
+            roots.append(b.deff)
+    for d in cg.trait_impls.get(("functions::Function", "evaluate"), []):
+        roots.append(d)
+    return cg, cg.reachable_from(roots)
+
+
 INTERIOR_MUT = re.compile(
     r"(::cell::|UnsafeCell|\bCell<|RefCell|OnceCell|LazyCell|std::sync::(Mutex|RwLock|Once\b|OnceLock|LazyLock|Condvar|Barrier|mpsc|atomic)|"
     r"::atomic::|Atomic[A-Z]|lazy_static::lazy::Lazy|once_cell|parking_lot|LocalKey|thread_local)"
@@ -250,11 +270,7 @@ def check_effects(ctx, lib, cfgname="default", prefix=""):
                   R("no-shared-mutation"), "interpret-signature", f"interpret(data: &Rcvar, node: &Ast, ctx: &mut Context) ({sig[:120]})", it.span)
 
     # ---- 6. no ambient nondeterminism in reachable code ------------------------------------------
-    cg = CallGraph(lib)
-    reach = cg.reachable_from(ENTRY_ROOTS)
-    # every impl Function::evaluate is reachable through the registry
-    for d in cg.trait_impls.get(("functions::Function", "evaluate"), []):
-        reach |= cg.reachable_from([d])
+    cg, reach = reachable_bodies(lib)
     ctx.floor(R("nondeterminism"), len(reach), 150, "bodies reachable from compile/search/clone/conversion entry points")
     counts["reachable"] = len(reach)
     for d in sorted(reach):
